@@ -475,8 +475,6 @@ PPL::CO_Tree::insert_precise_aux(const dimension_type key1,
   PPL_ASSERT(!is_greater_than_ratio(size_ + 1, reserved_size,
                                     max_density_percent));
 
-  ++size_;
-
   if (!itr.is_leaf()) {
     if (key1 < itr.index()) {
       itr.get_left_child();
@@ -487,11 +485,21 @@ PPL::CO_Tree::insert_precise_aux(const dimension_type key1,
     PPL_ASSERT(itr.index() == unused_index);
 
     new(&(*itr)) data_type(data1);
-    // Set the index only if the construction was successful.
+    // Set the index (and count the element) only if the construction
+    // was successful.
     itr.index() = key1;
+    ++size_;
   }
   else {
-    itr = rebalance(itr, key1, data1);
+    ++size_;
+    try {
+      itr = rebalance(itr, key1, data1);
+    }
+    catch (...) {
+      // The new element has not been built.
+      --size_;
+      throw;
+    }
     itr.go_down_searching_key(key1);
     PPL_ASSERT(itr.index() == key1);
   }
@@ -929,6 +937,18 @@ PPL::CO_Tree::rebalance(tree_iterator itr, const dimension_type key,
   // Now the subtree rooted at itr has been chosen as the subtree to be
   // rebalanced.
 
+  // When an element has to be added, build it aside BEFORE anything is moved:
+  // this is the only operation below that can throw, and the two steps
+  // cannot be undone half-way. Steps 1 and 2 then move the copy into place
+  // (bitwise, like every other element), so it must not be destroyed here.
+  union Raw_Element {
+    char bytes[sizeof(data_type)];
+    long double force_alignment;
+  } new_element;
+  data_type* const value_p = deleting
+    ? const_cast<data_type*>(&value)
+    : new(new_element.bytes) data_type(value);
+
   // Step 1: compact elements of this subtree in the rightmost end, from right
   //         to left.
   const dimension_type last_index_in_subtree
@@ -936,12 +956,12 @@ PPL::CO_Tree::rebalance(tree_iterator itr, const dimension_type key,
 
   const dimension_type first_unused
     = compact_elements_in_the_rightmost_end(last_index_in_subtree,
-                                            subtree_size, key, value,
+                                            subtree_size, key, *value_p,
                                             !deleting);
 
   // Step 2: redistribute the elements, from left to right.
   redistribute_elements_in_subtree(itr.dfs_index(), subtree_size,
-                                   first_unused + 1, key, value,
+                                   first_unused + 1, key, *value_p,
                                    first_unused != last_index_in_subtree
                                                    - subtree_size);
 
@@ -985,7 +1005,8 @@ PPL::CO_Tree
             || last_index_in_subtree != first_unused_index) {
           PPL_ASSERT(first_unused_index != indexes);
           PPL_ASSERT(*first_unused_index == unused_index);
-          new(first_unused_data) data_type(value);
+          // `value' is a copy built aside by rebalance(): move it.
+          move_data_element(*first_unused_data, const_cast<data_type&>(value));
           // Set the index only if the construction was successful.
           *first_unused_index = key;
           --first_unused_index;
@@ -1086,7 +1107,8 @@ PPL::CO_Tree::redistribute_elements_in_subtree(const dimension_type root_index,
         PPL_ASSERT(last_used != top_i);
         PPL_ASSERT(indexes[top_i] == unused_index);
         add_element = false;
-        new(&(data[top_i])) data_type(value);
+        // `value' is a copy built aside by rebalance(): move it.
+        move_data_element(data[top_i], const_cast<data_type&>(value));
         // Set the index only if the construction was successful.
         indexes[top_i] = key;
       }
